@@ -56,7 +56,7 @@ func genOffender(seed uint64, tier string, force string) *Scenario {
 		for i := r.Intn(7); i > 0; i-- {
 			op := []string{"type_add", "comp_add", "action", "asset_add", "subscribe", "custom", "pose", "get_ground", "quad_sample", "get_region", "get_ground", "quad_sample"}[r.Intn(12)]
 			st := g.makeOp([]int{0, 2}[r.Intn(2)], op)
-			st.NoPose = false
+			st.NoPose = op == "pose" && r.Bool(0.15) // a pose update without its pose
 			g.steps = append(g.steps, st)
 		}
 	}
@@ -135,7 +135,11 @@ func genOffender(seed uint64, tier string, force string) *Scenario {
 		n := 1 + r.Intn(4)
 		for i := 0; i < n; i++ {
 			if r.Bool(0.7) {
-				off.Raws = append(off.Raws, mustMarshal(&hagallpb.EntityUpdatePose{Type: hagallpb.MsgType_MSG_TYPE_ENTITY_UPDATE_POSE, Timestamp: fixedTS, EntityId: uint32(1 + r.Intn(3)), Pose: posePB(float32(1000 + i))}))
+				pose := posePB(float32(1000 + i))
+				if r.Bool(0.15) {
+					pose = nil
+				}
+				off.Raws = append(off.Raws, mustMarshal(&hagallpb.EntityUpdatePose{Type: hagallpb.MsgType_MSG_TYPE_ENTITY_UPDATE_POSE, Timestamp: fixedTS, EntityId: uint32(1 + r.Intn(3)), Pose: pose}))
 			} else {
 				off.Raws = append(off.Raws, mustMarshal(&hagallpb.EntityComponentUpdate{Type: hagallpb.MsgType_MSG_TYPE_ENTITY_COMPONENT_UPDATE, Timestamp: fixedTS, EntityComponentTypeId: 1, EntityId: uint32(1 + r.Intn(3)), Data: []byte("z")}))
 			}
